@@ -113,6 +113,19 @@ void sk_heap_reset_stale(void)
 /* mark memory as defined for MemorySanitizer (no-op elsewhere) */
 void sk_mark_defined(void* p, size_t n) { DEF(p, n); (void)p; (void)n; }
 
+/* digest of everything allocated so far (contents and layout): lets an engine see whether a
+   sequence of mutations left its arguments exactly as they were */
+uint64_t sk_heap_digest(void)
+{
+	/* hashed here, in the uninstrumented TU: the range includes poisoned red zones */
+	uint64_t h = 1469598103934665603ull;
+	size_t i;
+	if (use_arena && arena)
+		for (i = 0; i < top; ++i)
+			h = (h ^ arena[i]) * 1099511628211ull;
+	return h;
+}
+
 void sk_heap_arm(void) { armed = 1; }
 void sk_heap_disarm(void) { armed = 0; }
 int sk_heap_armed(void) { return armed; }
